@@ -283,7 +283,7 @@ def run(ctx: Check, tree: Tree) -> None:
     # chain amplitude including the parity sign (rule shared with C02)
     from .c02 import check_products
 
-    ctx.section(check_products, ctx, tree)
+    ctx.section(check_products, ctx, tree, symmetrisation=False)  # (the symmetrisation clause of the components belongs to C02)
     # "equivalently ... the Clebsch-Gordan expansion reproduces the canonical intensity": the expansion is the two-CG product of C02
     from .c02 import check_cg
 
